@@ -149,7 +149,8 @@ def rule_F9c(ctx, qnames: List[str]):
 
 # ------------------------------------------------------------------- rescaling
 
-def rule_rescale_set(ctx, builder_q: str, list_q: str, fields_var="fields"):
+def rule_rescale_set(ctx, builder_q: str, list_q: str, fields_var="fields", only=None):
+    """only: restrict the obligation to these columns (a property that depends on some of the columns only)."""
     ctx.rule("RESCALE", "every division-unit column the row builder can produce (name ending in _div, and divs_pq) is "
                         "multiplied by the per-part factor in the lcm rescaling loop of the part-list function")
     b = ctx.prog.func(builder_q, "RESCALE")
@@ -187,6 +188,8 @@ def rule_rescale_set(ctx, builder_q: str, list_q: str, fields_var="fields"):
                     p = getattr(p, "_parent", None)
     ctx.require(scaled, "RESCALE", list_q, "rescaling loop not recognised")
     for fld in sorted(produced):
+        if only is not None and fld not in only:
+            continue
         ctx.check(fld in scaled, "RESCALE", f"{list_q}:{fld}", func=l, construct=f"not-rescaled:{fld}",
                   msg=f"column `{fld}` is in division units but is not multiplied by the per-part factor when parts "
                       f"with different divisions are combined: after rescaling `divs_pq` is the lcm in every row while "
